@@ -199,7 +199,7 @@ TRIPLE_DRIVERS = {
     ("conditional", "ConditionalIdentityDiagGaussianPDF", "condition_on_x"): "condition_on_x",
     ("conditional", "ConditionalGaussianPDF", "affine_joint_transformation"): "joint",
     ("conditional", "ConditionalIdentityGaussianPDF", "affine_joint_transformation"): "joint",
-    ("approximate_conditional", "HeteroscedasticConditional", "condition_on_x"): "UNCLAIMED",
+    ("approximate_conditional", "HeteroscedasticConditional", "condition_on_x"): "hetero",
 }
 
 
@@ -286,6 +286,15 @@ def triple_driver(prog, drv, cls, anchor, prefix):
                 d = coherent_diffs(q, "condition_on_x: ") + density_diffs(I, q, y, "condition_on_x")
                 return d, dict(funcs=funcs_of(I))
             obs.append(Ob(prefix + f"/triple/R={ctx}", run, "condition_on_x passes a coherent triple (tile of an invariant conditional)", anchor, group="site"))
+    elif drv == "hetero":
+        for hc in ("HeteroscedasticExpConditional", "HeteroscedasticCoshM1Conditional"):
+            def run(hc=hc):
+                from .approx import make_approx
+                I = build.new_interp()
+                c = make_approx(I, hc, "c")
+                q = I.call_method(c, "condition_on_x", [build.points("xs", sym("N"), sym("Dx"))])
+                return coherent_diffs(q, "heteroscedastic condition_on_x: "), dict(funcs=funcs_of(I))
+            obs.append(Ob(prefix + f"/triple/{hc}", run, "x-dependent covariance AA' + A_k D(x) A_k' is passed together with its inverse and log-determinant (generic Da >= Dy)", anchor, group="site"))
     elif drv == "joint":
         from . import c07
         for ctx in drivers.BATCH_CTX:
